@@ -37,10 +37,16 @@ PRELUDES = {
     # POW at 7, back-to-DPOS requested at 8 (takes effect at 18)
     "mode": dict(su=30, blocks=[[it("Reg", "p1"), it("Reg", "p3")], E, E, E, E, E, [it("ToPOW")], [it("ToDPOS")],
                                 E, E, E, E, E, E, E, E]),
+    # the whole POW period forced: POW at 7, back-to-DPOS requested at 8, DPOS again at 18 (= DPOSWorkHeight); the free
+    # blocks start with 19 = DPOSWorkHeight + 1, the block that appends two changes of DPOSStartHeight ("from pow" and
+    # the regular advance).  Stakes, a v1 vote (output worth more than the vote) and a v2 vote (expires at 21) are live.
+    "switch": dict(su=30, blocks=[[it("Reg", "p1"), it("Reg", "p3")], [it("Stake", a="a1", x=3)], [it("Stake", a="a2", x=2)], E,
+                                  [it("Reg", "p2")], E, [it("ToPOW")], [it("ToDPOS")], [it("Vote1", "p1", "a2")],
+                                  E, E, E, E, E, E, E, [it("Vote2", "p3", "a1", 1, 20)], E]),
 }
 
 CONSTS = dict(Lockup=3, IrrStart=7, MaxInactive=2, InactivePen=1, EmergencyPen=5, IllegalPen=2, MinLock=2, MaxLock=20,
-              DepV1=5000, DepV2=2000, V1Amt=3, MaxRights=5, MaxUtxo=3, WorkInterval=10)
+              DepV1=5000, DepV2=2000, RegExtra=1, V1Amt=3, MaxRights=5, MaxUtxo=3, WorkInterval=10)
 
 
 def mc_module(name, prelude, kinds):
